@@ -181,16 +181,19 @@ def comparisons(b):
     return out
 
 
-def edges_where(b, is_a, is_b, rel):
+def edges_where(b, is_a, is_b, rel, with_blocks=False):
     """Edges on which `a rel b` is known to hold, for the a / b recognised by the two predicates;
-    `x >= y` false-edge, `y > x` true-edge, ... all establish `x < y`."""
+    `x >= y` false-edge, `y > x` true-edge, ... all establish `x < y`.
+    with_blocks: return [(test block, edges)] instead of the flat edge list."""
     out = []
     for (x, y, r, te, fe, bb) in comparisons(b):
         for (p, q, rr) in ((x, y, r), (y, x, _FLIP[r])):
             if is_a(p) and is_b(q):
-                if rr == rel:
-                    out += te
-                elif _NEG[rr] == rel:
-                    out += fe
+                es = te if rr == rel else fe if _NEG[rr] == rel else []
+                if es:
+                    if with_blocks:
+                        out.append((bb, es))
+                    else:
+                        out += es
                 break
     return out
